@@ -260,3 +260,23 @@ CHECKS["C12"] = {
     ],
     "floors": {"C12/close": {"client_ops_in_flight": 0.25, "handler_ops_in_flight": 0.015, "write_parked_in_transport": 0.1, "idle": 0.1}, "C12/serve": {"handlers_running": 0.4}},
 }
+
+CHECKS["C03"] = {
+    "pkg": "./stream",
+    "level": "exploration",
+    "rule": ("sequential: histories of 1..12 steps over the full alphabet (local MsgSend/MsgRecv/CloseSend/Close/SendError/Cancel/SendCancel/RawWrite/RawFlush; remote message, half-close, close, error incl. < 8 bytes, "
+             "cancel with/without control bit, invoke, invoke-metadata, unknown kinds 0/8/9/33/63 with and without the control bit, foreign stream id) on a bare drpcstream.Stream whose writer sink is instant; every step runs on its own "
+             "goroutine to quiescence (blocked receives and deliveries stay pending; the single connection reader issues its next packet only after the previous one returned). A reference model written from state.dot and the godoc predicts "
+             "for every step: returns or blocks, the error class (nil / io.EOF / decoded remote error text+code / the caller's error / any non-nil), which packet if any is emitted (kind, control bit, length; ids strictly increasing; whole frames; split size respected), "
+             "which blocked calls are released and with what, and Terminated/Finished/Context().Done()/Err() after the step. "
+             "parked: the k-th transport write is held while further calls are issued; invariants at every quiescent point (finished => terminated; a write inside the transport => not finished; terminated with nothing in flight => finished), "
+             "after the release nothing stays blocked except receives/deliveries on an unterminated stream, and nothing is emitted after termination except the terminating local call's own packet. "
+             "Non-trivial: >= 2 state transitions (sequential); a parked write overlapped >= 2 pending calls (parked)."),
+    "assumptions": ["the reference model (harness/stream/model.go) is a faithful reading of state.dot and the method godoc; where no specific error is documented (receive after a remote Close or a local Close/SendError) any non-nil error is accepted",
+                    "the sequential check uses a 1-byte writer buffer so that nothing is left unflushed between steps; lock-level behaviour during a parked write is C04's subject"],
+    "subs": [
+        {"test": "TestC03Sequential", "prop": "C03/sequential", "quick": 120000, "thorough": 4000000, "shards_quick": 16, "shards_thorough": 16, "gomaxprocs": 1},
+        {"test": "TestC03Parked", "prop": "C03/parked", "quick": 60000, "thorough": 2000000, "shards_quick": 16, "shards_thorough": 16, "gomaxprocs": 1},
+    ],
+    "floors": {"C03/sequential": {"@nontrivial": 0.2, "terminated": 0.5}, "C03/parked": {"parked_write_overlapped_other_calls": 0.1, "terminated_while_write_parked": 0.05}},
+}
